@@ -1,7 +1,7 @@
 """C18 — stream IDs are strictly increasing and XRANGE returns what was added.
 Model: lean/RedisGoModel/Exec/{Core,Stream,Dispatch}.lean; theorems: lean/RedisGoModel/Props/C18.lean;
 tie: exec engine (server.Manager.ExecCommand + VerifDump hook, streams dumped as x:<id>=<fields>;…|last=<id>)."""
-from .. import core, execgen, execsuite, execgen_stream
+from .. import core, execgen, execsuite, execgen_stream, concsuite
 
 
 def run(R, ctx):
@@ -15,6 +15,11 @@ def run(R, ctx):
              "sequence-less bounds, COUNT, malformed bounds) over binary field/value contents, interleaved with SET/DEL/EXPIRE/RENAME/TYPE "
              "on the same keys. Auto IDs are judged in checker mode against the clock bracket recorded by the harness")
 
+    rule = R.rule
+    concsuite.run_conc(R, ctx, "stream-trim", ['streamtrim'], (2, 12), race=False)
+    R.rule = rule + " Concurrent scenario(s) streamtrim of the conc engine (see C05): the family's containers under concurrent clients, verdict by invariants that need no history search."
 
 def replay(R, payload):
+    if payload.get("engine") == "conc":
+        return concsuite.replay_conc(R, payload)
     return core.generic_replay(R, payload)
